@@ -209,6 +209,30 @@ def ch_job(job):
             "col": col + 1, "shift": shift}
 
 
+def big_job(job):
+    """A LONG single-series run (clusters of thousands of windows - beyond any block size an implementation may
+    process its points in), judged by the observation predicates only: the per-point data are too many to hand to TLC."""
+    from harness import common, obs, runs
+    common.use_repo()
+    T, N, W, K, limit, seed = job
+    rng = random.Random(seed)
+    c = runs.gen_config(rng, 0, "quick")
+    c.update(id=f"big{seed}", fe="single", K=K, N=N, W=W, limit=limit, m=3, eps=0, scale=1.0, lam=0.11, lam_form="float",
+             beta=5.0, beta_form="float", biased=bool(seed % 2), n_regimes=K, readonly=False, fortran=False, P=1, mp=False,
+             lens=[T], offset=0.0, series_dtype=None, degenerate=None, outlier=False)
+    c["big"] = True
+    tr = runs.traced_run(c)
+    last = tr["events"][-1]
+    if last["ev"] != "return":
+        return {"kind": "big", "completed": False, "type": last.get("type", ""), "T": T}
+    sizes = [last["modelLabels"].count(k) for k in range(K)]
+    return {"kind": "big", "completed": True, "T": T, "n": len(last["modelLabels"]), "nAll": last["nAll"], "K": K,
+            "largestCluster": max(sizes), "allNonEmpty": bool(last["allNonEmpty"]),
+            "converged": any(e["ev"] == "converged" for e in tr["events"]),
+            "acctOk": last["acctOk"], "o7result": last["o7result"], "bicOk": last["bicOk"],
+            "chOk": last["chOk"], "chScalarCentre": bool(last["chScalarCentre"])}
+
+
 def floor_job(job):
     """_zero_small_elements / _reconstruct_optimized_matrix on integer matrices (exact), including entries
     exactly equal to +-eps, eps = 0, negative entries, both copy modes."""
